@@ -574,11 +574,25 @@ class Sym:
         return out
 
     def ev_Borrow(self, n, st):
+        if n.get("mut") and self.inline_mut:
+            # `&mut local` / `&mut local.field` as a *value* (`Some(&mut compiler)`, a match arm picking a slot): a reference to that
+            # place - assigning through whatever it is bound to later is an assignment to the place
+            e_ = F.strip(n["e"]) if isinstance(n.get("e"), dict) else {}
+            inner = n["e"]
+            while isinstance(inner, dict) and inner.get("k") in ("Deref", "Coerce"):
+                inner = inner["e"]
+            if isinstance(inner, dict) and inner.get("k") in ("Var", "Field"):
+                pl = self.place_of(inner, st)
+                if pl is not None and pl[3] is None and pl[0] in st.env and not (inner.get("ty") or "").startswith("&"):
+                    root_v = st.env[pl[0]]
+                    if not (isinstance(root_v, tuple) and root_v[:1] in (("place",), ("pl",), ("alias",))):
+                        return [(st, (VAL, ("place", pl[1], tuple(pl[2]))))]
         return self.ev(n["e"], st)
 
-    ev_Deref = ev_Borrow
-    ev_Coerce = ev_Borrow
-    ev_RawBorrow = ev_Borrow
+    def ev_Deref(self, n, st):
+        return self.ev(n["e"], st)
+    ev_Coerce = ev_Deref
+    ev_RawBorrow = ev_Deref
 
     def ev_Cast(self, n, st):
         fr, to = n.get("from"), n.get("ty")
